@@ -36,7 +36,8 @@ def main(argv=None):
     if cfg.get('proof') and a.only != 'bounded':
         try:
             pl = importlib.import_module('vlib.vc.run')
-            proof = pl.run_property(pid, cfg['proof'], tier, seed)
+            from vlib.vc import contracts_all
+            proof = pl.run_property(pid, cfg['proof'], tier, seed) if contracts_all.TARGETS.get(pid) else None
         except Exception:  # noqa
             import traceback
             crashes.append(dict(fn='proof-layer', tb=traceback.format_exc()[-3000:]))
